@@ -43,6 +43,9 @@ var orderCache = map[string][]int{}
 // fstepCache: per operation of that count, the number of file-level steps it consisted of.
 var fstepCache = map[string][]int{}
 
+// kindsCache: the kinds of the operations of that count, in order.
+var kindsCache = map[string][]string{}
+
 func crashOrder(kinds []string) []int {
 	var first, rest []int
 	for i := len(kinds) - 1; i >= 0; i-- {
@@ -80,6 +83,7 @@ func RunDaemon(t *testing.T, sc *DaemonScenario, dump io.Writer) (res RunResult)
 			multiCache[key] = r0.MultiTx
 			orderCache[key] = crashOrder(r0.OpKinds)
 			fstepCache[key] = r0.FileSteps
+			kindsCache[key] = r0.OpKinds
 		}
 		if sc.Crash.Mode == "fstep" {
 			// crash between the file-level steps of one operation: only operations that write files have such points
@@ -134,6 +138,21 @@ func RunDaemon(t *testing.T, sc *DaemonScenario, dump io.Writer) (res RunResult)
 		cr.At = 1 + cr.AtIndex%ops
 		if ord := orderCache[key]; len(ord) == ops {
 			cr.At = ord[cr.AtIndex%ops]
+			if cr.Mode == "late" {
+				// a stalled operation matters most where other steps of the same sequence may overtake it:
+				// the records of completed epochs first (latest first), then the usual order
+				kinds := kindsCache[key]
+				var first, rest []int
+				for _, k := range ord {
+					if k-1 < len(kinds) && kinds[k-1] == "dkg.SaveFinished" {
+						first = append(first, k)
+					} else {
+						rest = append(rest, k)
+					}
+				}
+				lo := append(first, rest...)
+				cr.At = lo[cr.AtIndex%ops]
+			}
 		}
 		resolved.Crash = &cr
 		res = runDaemon1(t, &resolved, dump)
